@@ -86,6 +86,8 @@ def _opaque_call(n):
     slice does not continue into the arguments (std conversions, iterator adaptors and `?` are followed through)."""
     if n.get("k") in ("Call", "MethodCall"):
         c = hirq.callee(n) or hirq.callee_decl(n) or ""
+        if c.split("::")[-1] in ("from", "into", "try_from", "try_into") and len(n.get("a", [])) + (1 if n.get("recv") else 0) == 1:
+            return False    # a conversion of one value (impl From<U24> for usize ..) denotes the same thing as its argument
         return c.startswith(("alpha::", "<alpha::", "delta::", "<delta::", "penne::"))
     return False
 
